@@ -1,5 +1,130 @@
 ------------------------------ MODULE Mon_C16 ------------------------------
-EXTENDS Naturals, Sequences, TLC
-MonInit == [viol |-> <<>>]
-MonStep(m, e, l) == m
+(***************************************************************************)
+(* C16 - Commands succeed only if truly accepted; every request gets       *)
+(* exactly one outcome.                                                     *)
+(*                                                                         *)
+(* The monitor follows the requests submitted by the user (req lines),     *)
+(* their completions (done records), the request outstanding on the wire   *)
+(* (MMonBase!TrackOut) and the class of every reply (the scenario tags a   *)
+(* reply "echo" only when it is a byte-faithful echo of the request with   *)
+(* status SUCCESS).                                                         *)
+(*   false-success     a command (or restart / read / empty-response       *)
+(*                     request) reported success on a line that is not the *)
+(*                     faithful final reply to its last step               *)
+(*   operate-unechoed  OPERATE written without a faithful SELECT echo      *)
+(*   operate-shape     OPERATE not with the next sequence number, the same *)
+(*                     objects and the same destination as the SELECT      *)
+(*   no-operate        faithful SELECT echo not followed by OPERATE        *)
+(*   wrong-error       IIN2 rejection / timeout / disable reported as      *)
+(*                     something else                                      *)
+(*   two-outcomes / phantom-outcome / no-outcome / late                    *)
+(*                     every accepted request completes exactly once: at   *)
+(*                     once for requests that cannot be queued, on the     *)
+(*                     line of a disconnect or disable for all pending     *)
+(*                     ones, and within a number of response timeouts      *)
+(*                     bounded by the protocol steps of the requests ahead *)
+(***************************************************************************)
+EXTENDS MMonBase
+
+TaskKinds == {"read", "cmd", "restart", "link_status", "empty", "time"}
+
+MonInit == [cfg |-> [assocs |-> <<>>], sc |-> "", viol |-> <<>>, out |-> NoOut,
+            pend |-> <<>>,       \* <<[id, kind, mode, a, t, dl]>> accepted and not completed
+            fin |-> {},          \* ids already completed
+            up |-> FALSE, en |-> TRUE, pipe |-> FALSE,
+            lout |-> [has |-> FALSE, t |-> 0]]   \* a link status request is outstanding
+V(m, reason, l, ctx) == [m EXCEPT !.viol = Append(@, Viol("C16", reason, l, m.sc, ctx))]
+
+Quiet(cfg) == \A i \in 1..Len(cfg.assocs) : ~cfg.assocs[i].dis /\ ~cfg.assocs[i].integ /\ ~cfg.assocs[i].en
+                                             /\ cfg.assocs[i].ka < 0 /\ cfg.assocs[i].tsync = ""
+Rt(cfg, a) == IF IsAssoc(cfg, a) THEN ACfg(cfg, a).rt ELSE 1000
+\* protocol steps of a request
+Steps(r) == CASE r.kind = "cmd" /\ r.mode = "sbo" -> 2 [] r.kind = "time" -> 2 [] OTHER -> 1
+
+PendIds(m) == {m.pend[i].id : i \in 1..Len(m.pend)}
+PendOf(m, id) == LET xs == SelectSeq(m.pend, LAMBDA r : r.id = id) IN xs[1]
+
+\* ---- success only on the faithful final reply
+OkAllowed(m, e, r) ==
+    /\ e.k = "rx"
+    /\ CASE r.kind = "cmd" -> Answers(m.out, e.rx) /\ e.rx.body = "echo" /\ m.out.a = r.a
+                              /\ m.out.fc = (IF r.mode = "sbo" THEN 4 ELSE 5)
+         [] r.kind = "restart" -> Answers(m.out, e.rx) /\ e.rx.body = "g52" /\ m.out.fc \in {13, 14}
+         [] r.kind = "read" -> Answers(m.out, e.rx) /\ e.rx.fin /\ m.out.fc = 1
+         [] r.kind = "empty" -> Answers(m.out, e.rx) /\ e.rx.body = "empty"
+         [] r.kind = "link_status" -> e.rx.fc = -1
+         [] OTHER -> TRUE
+
+\* one completion record
+DoneStep(m, e, d, l) ==
+    IF d.id \in m.fin THEN V(m, "two-outcomes", l, "a request completed twice")
+    ELSE IF d.id \notin PendIds(m) THEN V(m, "phantom-outcome", l, "completion of a request that was never submitted")
+    ELSE
+    LET r == PendOf(m, d.id)
+        m0 == [m EXCEPT !.pend = SelectSeq(@, LAMBDA x : x.id # d.id), !.fin = @ \cup {d.id}]
+        m1 == IF d.res = "ok" /\ r.kind \in TaskKinds /\ ~OkAllowed(m, e, r)
+                THEN V(m0, "false-success", l, "success reported without the faithful final reply to the request's last step")
+                ELSE m0
+        \* the corresponding error
+        m2 == IF r.kind \in {"cmd", "restart", "read", "empty"} /\ d.res # "ok" /\
+                   (\/ e.k = "rx" /\ Iin2Err(e.rx.iin) /\ d.res # "RejectedByIin2"
+                         /\ Answers(m.out, [e.rx EXCEPT !.iin.param = FALSE, !.iin.nofn = FALSE, !.iin.unk = FALSE])
+                    \/ e.k = "adv" /\ d.res # "ResponseTimeout"
+                    \/ e.k = "disable" /\ d.res # "Disabled")
+                THEN V(m1, "wrong-error", l, "IIN2 rejection, timeout or disable reported as a different error")
+                ELSE m1
+    IN m2
+
+RECURSIVE Dones(_, _, _, _)
+Dones(m, e, ds, l) == IF ds = <<>> THEN m ELSE Dones(DoneStep(m, e, Head(ds), l), e, Tail(ds), l)
+
+MonStep(m, e, l) ==
+    IF e.k = "reset" THEN [MonInit EXCEPT !.cfg = e.cfg, !.sc = e.id, !.viol = m.viol, !.en = e.cfg.enabled]
+    ELSE IF ~HasOutputs(e) THEN m
+    ELSE
+    LET \* requests still pending past their deadline when this line begins
+        mLate == IF \E i \in 1..Len(m.pend) : m.pend[i].dl >= 0 /\ m.pend[i].dl < e.t
+                   THEN V([m EXCEPT !.pend = [i \in 1..Len(@) |-> [@[i] EXCEPT !.dl = -1]]], "late", l,
+                          "a request has no outcome after the response timeouts its protocol steps allow")
+                   ELSE m
+        \* a new request
+        mReq == IF e.k = "req" THEN
+                    LET r == e.req
+                        ahead == SelectSeq(mLate.pend, LAMBDA x : x.kind \in TaskKinds)
+                        budget == (Steps([kind |-> r.kind, mode |-> r.mode]) + FoldLeft(LAMBDA acc, x : acc + Steps(x), 0, ahead))
+                                   * (Rt(m.cfg, r.a) + 5) + 5
+                        dl == IF Quiet(m.cfg) /\ Len(m.cfg.assocs) = 1 /\ r.kind \in TaskKinds THEN e.t + budget ELSE -1
+                    IN [mLate EXCEPT !.pend = Append(@, [id |-> r.id, kind |-> r.kind, mode |-> r.mode, a |-> r.a, t |-> e.t, dl |-> dl])]
+                ELSE mLate
+        \* OPERATE only after a faithful SELECT echo
+        ops == SelectSeq(e.tx, LAMBDA x : x.fc = 4)
+        echoed == e.k = "rx" /\ Answers(m.out, e.rx) /\ m.out.fc = 3 /\ e.rx.body = "echo"
+        mOp1 == IF ops # <<>> /\ ~echoed
+                  THEN V(mReq, "operate-unechoed", l, "OPERATE written without a faithful SELECT echo") ELSE mReq
+        mOp2 == IF ops # <<>> /\ echoed /\ (ops[1].seq # Seq16(m.out.seq + 1) \/ ops[1].obid # m.out.obid \/ ops[1].dst # m.out.a)
+                  THEN V(mOp1, "operate-shape", l, "OPERATE must carry the next sequence number and the objects of the SELECT") ELSE mOp1
+        mOp3 == IF echoed /\ ops = <<>>
+                  THEN V(mOp2, "no-operate", l, "faithful SELECT echo not followed by OPERATE") ELSE mOp2
+        mD == Dones(mOp3, e, e.done, l)
+        \* requests that cannot be queued complete at once; a disconnect or disable completes everything
+        immediate == e.k = "req" /\ (e.req.kind \notin TaskKinds \/ ~m.up)
+        mI == IF immediate /\ e.req.id \in PendIds(mD)
+                THEN V([mD EXCEPT !.pend = SelectSeq(@, LAMBDA x : x.id # e.req.id)], "no-outcome", l,
+                       "a request that cannot be queued must complete at once")
+                ELSE mD
+        mC == IF e.k \in {"cut", "disable"} /\ m.up /\ mI.pend # <<>>
+                THEN V([mI EXCEPT !.pend = <<>>], "no-outcome", l, "requests pending at a disconnect or disable must fail then")
+                ELSE mI
+        \* the harness hands a new connection to an enabled endpoint at once, to a disabled one when it is enabled
+        up1 == CASE e.k = "conn" -> m.up \/ m.en
+                 [] e.k = "enable" -> m.up \/ m.pipe
+                 [] e.k \in {"cut", "disable"} -> FALSE
+                 [] OTHER -> m.up
+        pipe1 == CASE e.k = "conn" -> ~m.up /\ ~m.en
+                   [] e.k \in {"enable", "cut"} -> FALSE
+                   [] OTHER -> m.pipe
+        en1 == CASE e.k = "enable" -> TRUE [] e.k = "disable" -> FALSE [] OTHER -> m.en
+    IN [mC EXCEPT !.out = TrackOut(m.out, e), !.up = up1, !.pipe = pipe1, !.en = en1]
+
+Claimed == {"C16"}
 =============================================================================
